@@ -54,6 +54,13 @@ def judge(ctx, sc, text, start_len):
         what = "curve-point-" + sc["point_label"]
     if invalid is None:
         return None
+    if status == "hang":
+        # the engine never came back (its exponent generation would loop forever on the transport thread)
+        ctx.fail("kex-engine-hangs:%s:%s%s" % (L.family(sc), "client" if sc["role"] == "c" else "server",
+                                              ":re-exchange" if sc.get("sid") else ""),
+                 {"scenario": L.sc_json(sc), "label": sc.get("label")},
+                 "the engine's _generate_x does not terminate for this peer input (bounded randomness exhausted)")
+        return invalid
     if invalid:
         # effects produced by the LAST packet only (earlier packets of the scenario were valid)
         last = last_step_effects(sc, eff, start_len)
@@ -61,7 +68,7 @@ def judge(ctx, sc, text, start_len):
         ls = [e for e in last if e.startswith("send:")]
         if status == "ok" or lp or ls or "act" in last:
             role = "client" if sc["role"] == "c" else "server"
-            ctx.fail("%s-accepted:%s:%s" % (what, L.family(sc), role),
+            ctx.fail("%s-accepted:%s:%s%s" % (what, L.family(sc), role, ":re-exchange" if sc.get("sid") else ""),
                      {"scenario": L.sc_json(sc), "label": sc.get("label")},
                      "invalid peer input was not refused: status=%s set_K_H=%d sent=%d activate=%s"
                      % (status, len(lp), len(ls), "act" in last))
@@ -181,7 +188,7 @@ def gex_group_oracle(ctx):
             n0 = len(trace)
             shim = CountingOs(20000)
             status = "ok"
-            with L.patched(m_gex, os=shim):
+            with L.patched(m_gex, os=shim), L.LineBudget():
                 try:
                     eng.parse_next(31, Message(L.raw_mpint(p) + L.raw_mpint(2)))
                 except Exception as e:
@@ -292,7 +299,9 @@ def rekey_oracle(ctx):
     plans = [("group14-256", "client", 31, "sms", 1, rng.choice([0, P, P + 1, -1]), "f"),
              ("group14-256", "server", 30, "m", 0, rng.choice([0, P, P + 1, -1]), "e"),
              ("gex256", "client", 33, "sms", 1, rng.choice([0, P, P + 5]), "f"),
-             ("gex256", "client", 31, "mm", 0, rng.choice([L.random_odd(rng, 768), -L.random_odd(rng, 2048), L.random_odd(rng, 9000)]), "p"),
+             ("gex256", "client", 31, "mm", 0, L.random_odd(rng, rng.choice([521, 768, 1023])), "p"),
+             ("gex256", "client", 31, "mm", 0, L.random_odd(rng, rng.choice([8193, 9001])), "p"),
+             ("gex", "client", 31, "mm", 0, rng.choice([-L.random_odd(rng, 2048), 0, -1]), "p"),
              ("nistp256", "client", 31, "sss", 1, b"\x04" + rng.randbytes(64), "Q_S"),
              ("nistp256", "server", 30, "s", 0, b"\x04" + rng.randbytes(64), "Q_C"),
              ("c25519", "client", 31, "sss", 1, bytes.fromhex(rng.choice(X25519_LOW_ORDER)), "Q_S"),
@@ -309,6 +318,18 @@ def rekey_oracle(ctx):
             sender = e.ts if victim == "client" else e.tc
             vt, side = (e.tc, "c") if victim == "client" else (e.ts, "s")
             L.tamper_outgoing(sender, ptype, kinds, idx, value, hit)
+            sent_by_victim = []
+            orig_vsend = vt._send_message
+
+            def vsend(m, sent_by_victim=sent_by_victim, orig_vsend=orig_vsend):
+                if hit:
+                    sent_by_victim.append(m.asbytes()[0])
+                orig_vsend(m)
+
+            if vt is not sender:
+                vt._send_message = vsend
+            import paramiko.kex_gex as m_gex
+            shim = L.BoundedOs(20000)
             out = {}
 
             def go():
@@ -318,12 +339,23 @@ def rekey_oracle(ctx):
                 except Exception as ex:
                     out["res"] = ex
 
-            th = threading.Thread(target=go, daemon=True)
-            th.start()
-            th.join(90)
-            if th.is_alive():
-                raise InfraError("C08: renegotiate_keys did not return within 90 s")
-            vt.join(30)
+            with L.patched(m_gex, os=shim):
+                th = threading.Thread(target=go, daemon=True)
+                th.start()
+                th.join(90)
+                if th.is_alive():
+                    raise InfraError("C08: renegotiate_keys did not return within 90 s")
+                vt.join(30)
+            if shim.calls > shim.limit:
+                ctx.fail("gex-nonpositive-modulus-hang:re-exchange", dict(case, value=str(value)[:60]),
+                         "KexGex._generate_x does not terminate for the group announced in the re-exchange "
+                         "(the transport thread would spin for ever)")
+                continue
+            if what == "p" and any(t == 32 for t in sent_by_victim):
+                ctx.fail("gex-group-out-of-range-accepted:gex:client:re-exchange", dict(case, value=str(value)[:60],
+                                                                                      bits=abs(value).bit_length()),
+                         "the client answered the out-of-range group of the re-exchange with KEXDH_GEX_INIT (e sent)")
+                continue
             ctx.case(("e2e-rekey", kex, victim, what, str(value)[:40]), True)
             ctx.dist("e2e-rekey:%s:%s:%s" % (kex, victim, what))
             if not hit:
@@ -393,6 +425,20 @@ def source_guard_facts(ctx):
                 ctx.disagree("assert-statement-in-kex-module", {"file": os.path.basename(path), "line": node.lineno},
                              "guards are `if …: raise SSHException`", "assert " + ast.unparse(node.test)[:120])
         ctx.dist("source:kex-module-without-assert")
+    # the gex client's range test on the announced group depends on the group alone (not on the transport's state)
+    tree = ast.parse(open(os.path.join(REPO, "paramiko", "kex_gex.py"), encoding="utf-8").read())
+    fn = next((f for f in ast.walk(tree) if isinstance(f, ast.FunctionDef) and f.name == "_parse_kexdh_gex_group"), None)
+    guards = [st for st in (fn.body if fn else []) if isinstance(st, ast.If) and any(isinstance(n, ast.Raise) for n in ast.walk(st))]
+    if len(guards) != 1:
+        ctx.disagree("gex-group-range-test-not-found", {}, "one top-level `if …: raise` in _parse_kexdh_gex_group", str(len(guards)))
+    else:
+        used = {n.id for n in ast.walk(guards[0].test) if isinstance(n, ast.Name)} | \
+               {n.attr for n in ast.walk(guards[0].test) if isinstance(n, ast.Attribute)}
+        calls = [ast.unparse(n) for n in ast.walk(guards[0].test) if isinstance(n, ast.Call)]
+        if not used <= {"self", "p", "bitlen"} or calls:
+            ctx.disagree("gex-group-range-test-is-conditional", {}, "a test on self.p and bitlen only",
+                         ast.unparse(guards[0].test)[:200])
+    ctx.dist("source:gex-group-range-test-unconditional")
 
 
 def tag(v, P):
